@@ -96,7 +96,7 @@ def handleMw (j : Json) : Json :=
   let o := middleware cfg env ops
   let s := spec cfg env ops
   let applicable := validCodesB ops
-  let excl := if StatusUnrecorded cfg env ops then ["StatusUnrecorded"] else []
+  let excl : List String := []
   let branches :=
     (if !env.routeFound then ["mw.noroute"] else if !env.reqOK then ["mw.badreq"] else
       opBranches ops strict ++
@@ -106,7 +106,8 @@ def handleMw (j : Json) : Json :=
     (if errfn != "default" then ["cb.err." ++ errfn] else []) ++
     (if getStr j "logfn" == "default" then ["cb.log.default"] else []) ++
     (if getStr j "transport" == "server" then ["tr.server"] else []) ++
-    (if !excl.isEmpty then ["excl"] else [])
+    (if env.routeFound && env.reqOK && (wroteStatus ops).isNone &&
+        (env.respOK 0 (finalHdr ops) [] != env.respOK 200 (finalHdr ops) []) then ["mw.status0_as_200"] else [])
   jobj [
     ("model", jobj ([("ran", Json.bool o.handlerRan), ("err", jstrs (o.errCalls.map errStr)),
                      ("logs", jstrs (o.logs.map logStr))] ++ jclient o.client)),
